@@ -137,6 +137,14 @@ AlgoSel(d, env, s, i) ==          \* the checks of match_selectors, in the order
     /\ ("scope" \in s.flags => i = env.scope)
     /\ \A n \in 1..Len(s.nth) : AlgoNth(d, env, s.nth[n], i)
     /\ ("empty" \in s.flags => EmptyHolds(d, i))
+    \* the "additional logic" flags the parser puts on the last alternative of :default / :indeterminate / the range pseudo-classes /
+    \* :placeholder-shown (match_default, match_indeterminate, match_range, match_placeholder_shown), and :defined
+    /\ ("default" \in s.flags => HsDefaultButton(d, i))
+    /\ ("indeterminate" \in s.flags => \A j \in HsRadioGroup(d, i) : ~HsHas(d, j, HsAChecked))
+    /\ ("in_range" \in s.flags => CalInRange(d, i))
+    /\ ("out_of_range" \in s.flags => CalOutOfRange(d, i))
+    /\ ("placeholder" \in s.flags => HsTextContent(d, i) \in {<<>>, <<10>>})
+    /\ ("defined" \in s.flags => IsHtml(d) /\ HsDefined(d, i))
     /\ ("dir_ltr" \in s.flags => StateHolds(d, [k |-> "dir", d |-> "ltr"], i))
     /\ ("dir_rtl" \in s.flags => StateHolds(d, [k |-> "dir", d |-> "rtl"], i))
     /\ \A n \in 1..Len(s.lang) : LangHolds(d, [k |-> "lang", ranges |-> s.lang[n]], i)
